@@ -44,6 +44,47 @@ type c16In struct {
 	// hostile identifier end to end: two real services in a CHILD process; a connected peer opens Incoming (raw bytes)
 	// with host.NewStream against a node that registered Descs
 	E2E bool `json:",omitempty"`
+	// local role of the node that registers the handlers (routing and e2e cases): "bootnode", "provider", "bidder",
+	// "unset" (Options without a PeerType); absent = "bidder"
+	Role string `json:",omitempty"`
+}
+
+// c16Opts: the options of a node with the given local role
+func c16Opts(role string) (*Options, error) {
+	k, err := crypto.GenerateKey()
+	if err != nil {
+		return nil, err
+	}
+	o := &Options{
+		KeySigner:  mockkeysigner.NewMockKeySigner(k, crypto.PubkeyToAddress(k.PublicKey)),
+		Secret:     "test",
+		ListenPort: 0,
+		ListenAddr: "127.0.0.1",
+		Register:   c16Reg{},
+		Logger:     util.NewTestLogger(io.Discard),
+	}
+	switch role {
+	case "bootnode":
+		o.PeerType = p2p.PeerTypeBootnode
+	case "provider":
+		o.PeerType = p2p.PeerTypeProvider
+	case "unset":
+	default:
+		o.PeerType = p2p.PeerTypeBidder
+	}
+	return o, nil
+}
+
+var c16Roles = []string{"bidder", "bootnode", "provider", "unset"}
+
+// c16Scramble overwrites the caller's descriptor slice after registration: what was registered must not change
+func c16Scramble(sd []p2p.StreamDesc, invoked chan int) {
+	for i := range sd {
+		sd[i] = p2p.StreamDesc{Name: "zz-scrambled", Version: "99.99.99", Handler: func(context.Context, p2p.Peer, p2p.Stream) error {
+			invoked <- 90
+			return nil
+		}}
+	}
 }
 
 type c16Num struct {
@@ -144,20 +185,12 @@ type c16Reg struct{}
 
 func (c16Reg) CheckProviderRegistered(context.Context, common.Address) bool { return true }
 
-func c16NewSvc(t *testing.T) *Service {
-	k, err := crypto.GenerateKey()
+func c16NewSvc(t *testing.T, role string) *Service {
+	o, err := c16Opts(role)
 	if err != nil {
 		t.Fatal(err)
 	}
-	svc, err := New(&Options{
-		KeySigner:  mockkeysigner.NewMockKeySigner(k, crypto.PubkeyToAddress(k.PublicKey)),
-		Secret:     "test",
-		ListenPort: 0,
-		ListenAddr: "127.0.0.1",
-		PeerType:   p2p.PeerTypeBidder,
-		Register:   c16Reg{},
-		Logger:     util.NewTestLogger(io.Discard),
-	})
+	svc, err := New(o)
 	if err != nil {
 		t.Fatal(err)
 	}
@@ -167,8 +200,8 @@ func c16NewSvc(t *testing.T) *Service {
 // c16Route registers descs on a fresh node and lets a connected peer open every identifier of opens;
 // returns per identifier: 0 = refused by the negotiation, k = k-th handler ran, 99 = several handlers ran,
 // 98 = opened but no handler ran within the wait, 97 = could not be opened for another reason than a refusal
-func c16Route(t *testing.T, slow int, descs [][2]string, oneCall bool, opens [][2]string) []int {
-	server, client := c16NewSvc(t), c16NewSvc(t)
+func c16Route(t *testing.T, slow int, role string, descs [][2]string, oneCall bool, opens [][2]string) []int {
+	server, client := c16NewSvc(t, role), c16NewSvc(t, "bidder")
 	defer server.Close()
 	defer client.Close()
 	invoked := make(chan int, 64)
@@ -187,6 +220,7 @@ func c16Route(t *testing.T, slow int, descs [][2]string, oneCall bool, opens [][
 			server.AddStreamHandlers(d)
 		}
 	}
+	c16Scramble(sd, invoked)
 	info := server.host.Peerstore().PeerInfo(server.host.ID())
 	addr, err := info.MarshalJSON()
 	if err != nil {
@@ -251,6 +285,7 @@ func c16Route(t *testing.T, slow int, descs [][2]string, oneCall bool, opens [][
 
 
 type c16E2EJob struct {
+	Role  string
 	Descs [][2]string
 	Ids   [][]byte
 	Slow  int
@@ -280,37 +315,32 @@ func TestVerifC16E2EChild(t *testing.T) {
 	if job.Slow < 1 {
 		job.Slow = 1
 	}
-	mk := func() *Service {
-		k, err := crypto.GenerateKey()
+	mk := func(role string) *Service {
+		o, err := c16Opts(role)
 		if err != nil {
 			t.Fatal(err)
 		}
-		svc, err := New(&Options{
-			KeySigner:  mockkeysigner.NewMockKeySigner(k, crypto.PubkeyToAddress(k.PublicKey)),
-			Secret:     "test",
-			ListenPort: 0,
-			ListenAddr: "127.0.0.1",
-			PeerType:   p2p.PeerTypeBidder,
-			Register:   c16Reg{},
-			Logger:     util.NewTestLogger(io.Discard),
-			MetricsReg: prometheus.NewRegistry(),
-		})
+		o.MetricsReg = prometheus.NewRegistry()
+		svc, err := New(o)
 		if err != nil {
 			t.Fatal(err)
 		}
 		return svc
 	}
-	server, client := mk(), mk()
+	server, client := mk(job.Role), mk("bidder")
 	defer server.Close()
 	defer client.Close()
 	invoked := make(chan int, 64)
+	var sd []p2p.StreamDesc
 	for i, d := range job.Descs {
 		k := i + 1
-		server.AddStreamHandlers(p2p.StreamDesc{Name: d[0], Version: d[1], Handler: func(ctx context.Context, _ p2p.Peer, _ p2p.Stream) error {
+		sd = append(sd, p2p.StreamDesc{Name: d[0], Version: d[1], Handler: func(ctx context.Context, _ p2p.Peer, _ p2p.Stream) error {
 			invoked <- k
 			return nil
 		}})
 	}
+	server.AddStreamHandlers(sd...)
+	c16Scramble(sd, invoked)
 	info := server.host.Peerstore().PeerInfo(server.host.ID())
 	addr, err := info.MarshalJSON()
 	if err != nil {
@@ -355,7 +385,7 @@ func TestVerifC16E2EChild(t *testing.T) {
 			}
 			select {
 			case got = <-invoked:
-			case <-time.After(time.Duration(job.Slow) * 150 * time.Millisecond):
+			case <-time.After(time.Duration(job.Slow) * 40 * time.Millisecond):
 			}
 		} else {
 			select {
@@ -374,7 +404,7 @@ func TestVerifC16E2EChild(t *testing.T) {
 			}
 		}
 		// the node must still be there: a crash on one of its goroutines ends this process before the next line
-		time.Sleep(time.Duration(job.Slow) * 30 * time.Millisecond)
+		time.Sleep(time.Duration(job.Slow) * 15 * time.Millisecond)
 		fmt.Printf("\nC16E2E RES %d %d %s\n", i, got, strconv.Quote(note))
 	}
 	fmt.Printf("\nC16E2E DONE\n")
@@ -382,7 +412,7 @@ func TestVerifC16E2EChild(t *testing.T) {
 
 // c16E2E runs the identifiers in child processes; an identifier during which the child died is observed as 2 and the
 // remaining ones continue in a fresh child
-func c16E2E(descs [][2]string, ids [][]byte, slow int) []c16E2ERes {
+func c16E2E(role string, descs [][2]string, ids [][]byte, slow int) []c16E2ERes {
 	res := make([]c16E2ERes, len(ids))
 	for i := range res {
 		res[i].Obs = -1
@@ -393,7 +423,7 @@ func c16E2E(descs [][2]string, ids [][]byte, slow int) []c16E2ERes {
 		if err != nil {
 			panic(err)
 		}
-		job, _ := json.Marshal(c16E2EJob{Descs: descs, Ids: ids[next:], Slow: slow})
+		job, _ := json.Marshal(c16E2EJob{Role: role, Descs: descs, Ids: ids[next:], Slow: slow})
 		_, _ = f.Write(job)
 		_ = f.Close()
 		cmd := exec.Command(os.Args[0], "-test.run=^TestVerifC16E2EChild$", "-test.count=1", "-test.timeout=30m")
@@ -534,7 +564,7 @@ func TestVerifC16(t *testing.T) {
 			return
 		}
 		if in.E2E {
-			r := c16E2E(in.Descs, [][]byte{in.Incoming}, e.Slow)[0]
+			r := c16E2E(in.Role, in.Descs, [][]byte{in.Incoming}, e.Slow)[0]
 			emit(class, in, r, 4, in.Descs, "", "[]", r.Obs)
 			return
 		}
@@ -543,7 +573,7 @@ func TestVerifC16(t *testing.T) {
 			if len(parts) != 2 {
 				return
 			}
-			obs := c16Route(t, e.Slow, in.Descs, in.OneCall, [][2]string{{parts[0], parts[1]}})[0]
+			obs := c16Route(t, e.Slow, in.Role, in.Descs, in.OneCall, [][2]string{{parts[0], parts[1]}})[0]
 			emit(class, in, obs, 1, in.Descs, "", "[]", obs)
 			return
 		}
@@ -562,10 +592,11 @@ func TestVerifC16(t *testing.T) {
 	}
 	// routing through two real services: several descriptors registered in ONE AddStreamHandlers call and in
 	// separate calls; every identifier is opened by a connected peer and must reach exactly the handler the rule names
+	role := "bidder"
 	routing := func(descs [][2]string, oneCall bool, opens [][2]string) {
-		res := c16Route(t, e.Slow, descs, oneCall, opens)
+		res := c16Route(t, e.Slow, role, descs, oneCall, opens)
 		for i, o := range opens {
-			in := c16In{Incoming: []byte("/" + o[0] + "/" + o[1]), Routing: true, Descs: descs, OneCall: oneCall}
+			in := c16In{Incoming: []byte("/" + o[0] + "/" + o[1]), Routing: true, Descs: descs, OneCall: oneCall, Role: role}
 			emit("routing", in, res[i], 1, descs, "", "[]", res[i])
 		}
 	}
@@ -583,8 +614,14 @@ func TestVerifC16(t *testing.T) {
 		descs := [][2]string{{"alpha", "1.2.0"}, {"beta", "2.0.5"}, {"gamma", "0.3.1"}}
 		opens := [][2]string{{"alpha", "1.2.0"}, {"beta", "2.0.5"}, {"gamma", "0.3.1"}, {"alpha", "1.0.7"}, {"alpha", "1.3.0"},
 			{"alpha", "2.0.0"}, {"beta", "2.0.0"}, {"beta", "1.0.0"}, {"gamma", "0.3.9"}, {"gamma", "0.4.0"}, {"delta", "1.0.0"}}
-		routing(descs, true, opens)
-		routing(descs, false, opens)
+		// every local role (the zero value of the role type included): the rule does not depend on who the node is
+		for _, role = range c16Roles {
+			routing(descs, true, opens)
+			if role == "bidder" || e.Tier == "thorough" {
+				routing(descs, false, opens)
+			}
+		}
+		role = "bidder"
 		routing(descs[:1], true, opens[:6])
 		// a name registered again replaces the earlier handler (whatever its version was); other spellings of a number
 		redescs := [][2]string{{"alpha", "1.2.0"}, {"beta", "2.0.5"}, {"alpha", "2.1.0"}}
@@ -650,10 +687,16 @@ func TestVerifC16(t *testing.T) {
 			}
 			ids = append(ids, b)
 		}
-		res := c16E2E(descs, ids, e.Slow)
-		for i, id := range ids {
-			in := c16In{Incoming: id, E2E: true, Descs: descs}
-			emit("hostile-id-e2e", in, res[i], 4, descs, "", "[]", res[i].Obs)
+		// the rule's boundary for every role: one minor ahead of the handler must not be routed on any of them
+		for _, x := range []string{"/test/1.3.0", "/test/1.2.0", "/test/1.99.0", "/test/2.2.0", "/test/0.2.0"} {
+			add(x)
+		}
+		for _, r := range c16Roles {
+			res := c16E2E(r, descs, ids, e.Slow)
+			for i, id := range ids {
+				in := c16In{Incoming: id, E2E: true, Descs: descs, Role: r}
+				emit("hostile-id-e2e", in, res[i], 4, descs, "", "[]", res[i].Obs)
+			}
 		}
 	}
 	// concurrent negotiations (child process): a crash or a wrong verdict under concurrency is a violation
